@@ -24,7 +24,8 @@ for line in sys.stdin:
                 out[mode] = ["exception", type(r["exc"]).__name__]
             else:
                 out[mode] = {"main": [list(multipass.rowkey(x)) for x in r["main"]],
-                             "files": {k: [list(multipass.rowkey(x)) for x in v] for k, v in sorted(r["files"].items())}}
+                             "files": {k: [list(multipass.rowkey(x)) for x in v] for k, v in sorted(r["files"].items())},
+                             "detail": [multipass.rowdetail(x) for x in r["main"] + [y for v in r["files"].values() for y in v]]}
         print(json.dumps(jsonable(out), sort_keys=True), flush=True)
     except Exception as ex:  # noqa
         print(json.dumps({"error": repr(ex)}), flush=True)
